@@ -106,6 +106,9 @@ func Load(dir string, overlay map[string][]byte) (*Program, error) {
 	p.allFuncs = ssautil.AllFunctions(p.SSA)
 	for fn := range p.allFuncs {
 		if p.InModule(fn) && fn.Blocks != nil {
+			if s := fn.Synthetic; strings.HasPrefix(s, "wrapper") || strings.HasPrefix(s, "bound") || strings.HasPrefix(s, "thunk") {
+				continue // compiler-made forwarding functions: no source of their own
+			}
 			p.modFuncs = append(p.modFuncs, fn)
 		}
 	}
